@@ -180,7 +180,7 @@ def do_event(cfg, ev, seed):
             res = []
             for view in (cfg.raw_settings, cfg.raw_settings_by_index, cfg.settings, cfg.settings_by_index, cfg.settings_map("enum")):
                 k = next(iter(view))
-                for op in ("set", "del", "clear", "update"):
+                for op in ("set", "del", "clear", "update", "ior", "pop", "popitem", "setdefault"):
                     try:
                         if op == "set":
                             view[k] = 1
@@ -188,8 +188,16 @@ def do_event(cfg, ev, seed):
                             del view[k]
                         elif op == "clear":
                             view.clear()
-                        else:
+                        elif op == "update":
                             view.update({k: 2})
+                        elif op == "ior":
+                            view |= {k: 3}
+                        elif op == "pop":
+                            view.pop(k)
+                        elif op == "popitem":
+                            view.popitem()
+                        else:
+                            view.setdefault("new-key", 4)
                         res.append("ACCEPTED")
                     except (TypeError, AttributeError) as e:
                         res.append(type(e).__name__)
